@@ -1,0 +1,29 @@
+//go:build verif
+
+// Contracts for govc (comment-only file; see /verif/DESIGN.md section 3).
+package frost
+
+// ---- entry points (C20): none of them may panic, whatever the arguments
+//@ func Keygen
+//@   nopanic[C20]
+//@   ensures result != nil
+//@ func KeygenTaproot
+//@   nopanic[C20]
+//@   ensures result != nil
+//@ func Refresh
+//@   nopanic[C20]
+//@   requires config != nil ==> fcfgwf(config)
+//@   ensures result != nil
+//@ func RefreshTaproot
+//@   nopanic[C20]
+//@   requires config != nil ==> tcfgwf(config)
+//@   ensures result != nil
+//@   loop 1: invariant fresh(verificationShares) && forall(k, party.ID, indom(verificationShares, k) ==> verificationShares[k] != nil)
+//@ func Sign
+//@   nopanic[C20]
+//@   ensures result != nil
+//@ func SignTaproot
+//@   nopanic[C20]
+//@   requires config != nil ==> tcfgwf(config)
+//@   ensures result != nil
+//@   loop 1: invariant fresh(genericVerificationShares) && forall(k, party.ID, indom(genericVerificationShares, k) ==> genericVerificationShares[k] != nil)
